@@ -1210,24 +1210,34 @@ class RepositoryPackCollection:
     def _abort_write_group(self):
         # FIXME: just drop the transient index.
         # forget what names there are
-        if self._new_pack is not None:
-            with contextlib.ExitStack() as stack:
-                stack.callback(setattr, self, "_new_pack", None)
-                # If we aborted while in the middle of finishing the write
-                # group, _remove_pack_indices could fail because the indexes are
-                # already gone.  But they're not there we shouldn't fail in this
-                # case, so we pass ignore_missing=True.
-                stack.callback(
-                    self._remove_pack_indices, self._new_pack, ignore_missing=True
-                )
-                self._new_pack.abort()
+        with contextlib.ExitStack() as outer:
+            # Whatever fails below, the resumed packs must be forgotten:
+            # otherwise the next write group on this object would finish and
+            # list the packs of the group that was aborted.
+            outer.callback(self._forget_resumed_packs)
+            if self._new_pack is not None:
+                with contextlib.ExitStack() as stack:
+                    stack.callback(setattr, self, "_new_pack", None)
+                    # If we aborted while in the middle of finishing the write
+                    # group, _remove_pack_indices could fail because the indexes
+                    # are already gone.  But they're not there we shouldn't fail
+                    # in this case, so we pass ignore_missing=True.
+                    stack.callback(
+                        self._remove_pack_indices, self._new_pack, ignore_missing=True
+                    )
+                    self._new_pack.abort()
+            for resumed_pack in self._resumed_packs:
+                with contextlib.ExitStack() as stack:
+                    # See comment in previous finally block.
+                    stack.callback(
+                        self._remove_pack_indices, resumed_pack, ignore_missing=True
+                    )
+                    resumed_pack.abort()
+
+    def _forget_resumed_packs(self):
+        """Drop every resumed pack from memory (used when aborting)."""
         for resumed_pack in self._resumed_packs:
-            with contextlib.ExitStack() as stack:
-                # See comment in previous finally block.
-                stack.callback(
-                    self._remove_pack_indices, resumed_pack, ignore_missing=True
-                )
-                resumed_pack.abort()
+            self._remove_pack_indices(resumed_pack, ignore_missing=True)
         del self._resumed_packs[:]
 
     def _remove_resumed_pack_indices(self):
